@@ -1,5 +1,5 @@
 \* C07 thorough - as MC_HttpState.cfg with RequestsFull (1,436: + MULTIPART, SSE, FORM complete) and PoolMax = 2.
-\* Measured: 169,476 distinct states, 34,218 edges, depth 23, 35 s (-workers 1).
+\* Measured: 203,694 distinct states, 34,218 edges, depth 26, 40-60 s (-workers 1).
 CONSTANTS
   Requests <- RequestsFull
   ResetFields <- AllSix
